@@ -23,6 +23,8 @@ def run(rep, tier):
     H.r_evt_loop_one(rep, hc)
     rep.rule("R-EVT-INIT", "crossing detection is switched off only on the initial callback: the test compares xold with x, or reads handler fields that every non-terminal path of every callback writes")
     H.r_evt_init_mark(rep, hc)
+    rep.rule("R-EVT-SORT", "events detected in one step are processed in the order of integration (a terminal event must not pre-empt an earlier sign change of another function)")
+    H.r_evt_sort(rep, hc)
     rep.rule("R-EVT-PAIR", "every evaluation of the event functions in the handler is made at a consistent (time, state) pair: (x, y) or (t, interpolant(t)) for the same t")
     H.r_evt_eval_pair(rep, hc)
     acc_rule(rep, f, rule="R-SOLOUT-ONCE")
